@@ -113,12 +113,24 @@ class _Loc:
         """dm[slc] <==> dm.__getitem__(slc)."""
         df = self._real_loc.__getitem__(slc)
         if isinstance(df, pd.Series):
-            df = df.to_frame().T
+            # the key tells what the Series is: ``[rows, criterion]`` with
+            # a single criterion is a column; anything else is a single row
+            is_column = (
+                isinstance(slc, tuple)
+                and len(slc) == 2
+                and np.isscalar(slc[1])
+                and not np.isscalar(slc[0])
+            )
 
-            dtypes = self._real_loc.obj.dtypes
-            dtypes = dtypes[dtypes.index.isin(df.columns)]
+            if is_column:
+                df = df.to_frame()
+            else:
+                df = df.to_frame().T
 
-            df = df.astype(dtypes)
+                dtypes = self._real_loc.obj.dtypes
+                dtypes = dtypes[dtypes.index.isin(df.columns)]
+
+                df = df.astype(dtypes)
 
         objectives = self._objectives.loc[df.columns].to_numpy()
 
